@@ -604,6 +604,7 @@ func checkC08(w *World, r *Report) {
 	checkPostfixParsersWrapTheirOperand(w, r)
 	checkTagTextConsumed(w, r, "R08.17")
 	checkOneEvaluator(w, r)
+	checkConstructorsKeepRoles(w, r)
 	checkNumberFormatting(w, r)
 	checkMembershipEquality(w, r, evalCases)
 	checkRelationalNumericFirst(w, r, evalCases)
@@ -2162,4 +2163,74 @@ func checkOneEvaluator(w *World, r *Report) {
 		}
 	}
 	r.floor("functions interpreting a BinaryNode's operator", n, 1)
+}
+
+// checkConstructorsKeepRoles — R08.19: the left operand stays on the left.  In every function that
+// builds an operator node (stores into the Node-typed fields of a BinaryNode, UnaryNode or
+// ConditionalNode), each such field receives one and the same parameter on every path — never
+// "left or right, whichever is not a literal".  Operands are evaluated in the order of the fields
+// and `and` / `or` stop after the first: exchanging them evaluates the side the template wrote
+// second even where the first one decides.
+func checkConstructorsKeepRoles(w *World, r *Report) {
+	nodeT := w.lookup("Node").Type()
+	n := 0
+	for _, fn := range w.pkgFuncs() {
+		instrsOf(fn, func(in ssa.Instruction) {
+			st, ok := in.(*ssa.Store)
+			if !ok {
+				return
+			}
+			fa, ok := st.Addr.(*ssa.FieldAddr)
+			if !ok {
+				return
+			}
+			t, f := fieldOfAddr(fa)
+			if t != "BinaryNode" && t != "UnaryNode" && t != "ConditionalNode" {
+				return
+			}
+			if !types.Identical(st.Val.Type(), nodeT) {
+				return
+			}
+			// only where the stored value comes from parameters at all
+			params := map[*ssa.Parameter]bool{}
+			other := false
+			seen := map[ssa.Value]bool{}
+			var walk func(v ssa.Value, d int)
+			walk = func(v ssa.Value, d int) {
+				v = unspill(v)
+				if v == nil || seen[v] || d > 6 {
+					return
+				}
+				seen[v] = true
+				switch x := v.(type) {
+				case *ssa.Parameter:
+					params[x] = true
+				case *ssa.Phi:
+					for _, e := range x.Edges {
+						walk(e, d+1)
+					}
+				case *ssa.Const:
+				default:
+					other = true
+				}
+			}
+			walk(st.Val, 0)
+			if len(params) == 0 {
+				return
+			}
+			n++
+			construct := t + "." + f + " receives one parameter"
+			if len(params) == 1 && !other {
+				r.ok("R08.19", ssaName(fn), construct, w.posOf(in.Pos()), "the same parameter on every path", false)
+			} else {
+				var names []string
+				for p := range params {
+					names = append(names, p.Name())
+				}
+				sort.Strings(names)
+				r.bad("R08.19", ssaName(fn), construct, w.posOf(in.Pos()), "the field receives "+strings.Join(names, " or ")+" depending on the path: operands change places, so they are evaluated in another order than written — the right-hand side of `and` / `or` runs although the left-hand side decides, and a failing operand fails an expression it should not have reached")
+			}
+		})
+	}
+	r.floor("operand stores in operator-node constructors", n, 3)
 }
